@@ -134,6 +134,33 @@ class Program:
                     self._bgf[_generic_free(f.def_path)] = f
         return self._bgf
 
+    def flat(self, f, depth=3):
+        """f together with the crate functions it calls (transitively, bounded): the view a rule
+        needs when it looks for *what a function does* regardless of how it is split into helpers."""
+        out, seen, work = [], set(), [(f, 0)]
+        while work:
+            g, d = work.pop(0)
+            if g.def_path in seen or g.body is None:
+                continue
+            seen.add(g.def_path)
+            out.append(g)
+            if d >= depth:
+                continue
+            for n in g.nodes():
+                if n.get("callee"):
+                    h = self.resolve_local(n)
+                    if h is not None and not h.rec.get("gen") and not h.rec.get("in_test") and h.def_path not in seen:
+                        work.append((h, d + 1))
+        return out
+
+    def flat_calls(self, f, name=None, depth=3):
+        """[(g, call node)] over flat(f)"""
+        out = []
+        for g in self.flat(f, depth):
+            for n in hir.calls_in(g.body, name=name):
+                out.append((g, n))
+        return out
+
     def resolve_local(self, n):
         """Fn for a call node if the callee is a function of this crate."""
         c = n.get("callee")
